@@ -550,9 +550,9 @@ def np_setitem(I, arr, key, v, node=None):
 # ---------------------------------------------------------------------------- attributes of values
 
 def value_attr(I, obj, name, node=None):
-    if isinstance(obj, (PyList, PyDict, PySet, SymSeq, SymDict, SDict, str, tuple)):
+    if isinstance(obj, (PyList, PyDict, PySet, SymSeq, SymDict, SDict, str, tuple, SymColl)):
         kind = {PyList: "list", PyDict: "dict", PySet: "set", SymSeq: "list", SymDict: "dict", SDict: "dict",
-                str: "str", tuple: "tuple"}[type(obj)]
+                str: "str", tuple: "tuple", SymColl: "set"}[type(obj)]
         return ExtFunc(kind + "." + name, bound=obj)
     if isinstance(obj, NpArr):
         if name == "shape":
@@ -1118,6 +1118,9 @@ def _m_dupdate(I, b, a, kw, node):
 
 @ext("set.add")
 def _m_sadd(I, b, a, kw, node):
+    if isinstance(b, SymColl):
+        I.ctx.writes.append(("set", b))      # in-place write to an abstract (pre-existing) collection
+        return None
     if not any(_eq_term(I, a[0], y) is True for y in b.items):
         b.items.append(a[0])
 
